@@ -1,4 +1,366 @@
-import ElfioVerif.Model.Array
-import ElfioVerif.Model.Modinfo
-import ElfioVerif.Model.Versym
-import ElfioVerif.Spec.Tables
+/-
+C14 — array, module-info and symbol-version tables round-trip.
+
+Statements use: the models (Model/Array.lean, Model/Modinfo.lean, Model/Versym.lean — built from the
+generated sites of Gen/SitesC14.lean), the reference semantics Spec/Tables.lean, C07's section
+invariant (`SecBuf.Inv`, `content`) and explicit, decidable size bounds.
+-/
+import ElfioVerif.Lemmas.Tables
+namespace ElfioVerif
+open Gen
+
+namespace Arr
+
+/-- a sequence of `add_entry` calls -/
+def addAll (w : W) (e : Enc) (b : SecBuf) : List (BitVec 64) → M SecBuf
+  | [] => pure b
+  | a :: as => do let b' ← addEntry w e b a; addAll w e b' as
+
+end Arr
+
+namespace Versym
+
+/-- a sequence of `add_entry` calls on one accessor (cached count threaded through) -/
+def addAll (b : SecBuf) (num : BitVec 32) : List (BitVec 16) → M (SecBuf × BitVec 32)
+  | [] => pure (b, num)
+  | v :: vs => do let r ← addEntry b num v; addAll r.1 r.2 vs
+
+end Versym
+
+namespace C14
+open SecBuf C07
+
+theorem bound_mono {c : Cls} {k k' : Nat} (h : Bound c k) (hk : k' ≤ k) : Bound c k' := by
+  cases c <;> simp only [Bound] at h ⊢ <;> omega
+
+/-! ## arrays -/
+
+/-- the bytes `add_entry` appends are the entry in the file's declared byte order -/
+theorem entryBytes_eq (w : Arr.W) (e : Enc) (a : BitVec 64) :
+    Arr.entryBytes w e a = encodeInt e w.bytes a.toNat := by
+  cases w
+  · have h4 : arr32_add_len.toNat = 4 := rfl
+    show _ = encodeInt e 4 a.toNat
+    rw [← wrField_eq e 4 a.toNat (by omega)]
+    simp only [Arr.entryBytes, h4, wrField, conv, arr32_add_conv, cv32, Arr.W.bytes]
+    congr 3
+    apply BitVec.eq_of_toNat_eq
+    simp
+  · have h8 : arr64_add_len.toNat = 8 := rfl
+    show _ = encodeInt e 8 a.toNat
+    rw [← wrField_eq e 8 a.toNat (by omega)]
+    simp only [Arr.entryBytes, h8, wrField, conv, arr64_add_conv, cv64, Arr.W.bytes]
+    have : a.toNat % 2 ^ (8 * 8) = a.toNat := Nat.mod_eq_of_lt a.isLt
+    simp [this]
+
+/-- **add_entry** : on every reachable section, `add_entry(a)` succeeds without leaving the
+    section's buffers and appends `a`, truncated to the entry width, in the declared byte order -/
+theorem array_add (w : Arr.W) (e : Enc) (b : SecBuf) (hI : b.Inv) (a : BitVec 64)
+    (hb : Bound b.cls (b.content.length + w.bytes)) :
+    ∃ b', Arr.addEntry w e b a = .ok b' ∧ b'.Inv ∧ b'.cls = b.cls ∧
+      b'.content = b.content ++ encodeInt e w.bytes a.toNat := by
+  have hl : (Arr.entryBytes w e a).length = w.bytes := by rw [entryBytes_eq]; simp
+  obtain ⟨b', h1, h2, h3, h4⟩ := append_refines b hI (Arr.entryBytes w e a) (by rw [hl]; exact hb)
+  exact ⟨b', h1, Or.inl h2, h3, by rw [h4, entryBytes_eq]⟩
+
+/-- **array_bytes, any sequence** : after any sequence of `add_entry` the section content is the
+    old content followed by the table of the added values in declared order -/
+theorem array_adds (w : Arr.W) (e : Enc) (b : SecBuf) (hI : b.Inv) (as : List (BitVec 64))
+    (hb : Bound b.cls (b.content.length + w.bytes * as.length)) :
+    ∃ b', Arr.addAll w e b as = .ok b' ∧ b'.Inv ∧ b'.cls = b.cls ∧
+      b'.content = b.content ++ Spec.encodeTable e w.bytes (as.map (·.toNat)) := by
+  induction as generalizing b with
+  | nil => exact ⟨b, rfl, hI, rfl, by simp [Spec.encodeTable]⟩
+  | cons a as ih =>
+    simp only [List.length_cons, Nat.mul_add, Nat.mul_one] at hb
+    obtain ⟨b1, e1, i1, c1, v1⟩ := array_add w e b hI a (bound_mono hb (by omega))
+    obtain ⟨b2, e2, i2, c2, v2⟩ := ih b1 i1 (by
+      rw [c1, v1]; simp only [List.length_append, encodeInt_length]; exact bound_mono hb (by omega))
+    refine ⟨b2, ?_, i2, by rw [c2, c1], ?_⟩
+    · simp only [Arr.addAll, e1, bind, Except.bind]; exact e2
+    · rw [v2, v1]; simp [Spec.encodeTable]
+
+theorem entriesNum_toNat (w : Arr.W) (b : SecBuf) :
+    (Arr.entriesNum w b).toNat = b.size.toNat / w.bytes := by
+  cases w <;> simp [Arr.entriesNum, arr32_entries_num, arr64_entries_num, Arr.W.bytes, BitVec.toNat_udiv]
+
+/-- **get_entry** : on every reachable section (fresh and edited, loaded eagerly, loaded lazily)
+    whose content is a table of `w`-byte entries in declared order, `get_entry(k)` is the `k`-th
+    entry truncated to the entry width, and `false` for every 64-bit index beyond the end -/
+theorem array_get (w : Arr.W) (e : Enc) (b : SecBuf) (hI : b.Inv) (vs : List Nat)
+    (hc : b.content = Spec.encodeTable e w.bytes vs) (index : BitVec 64) :
+    Arr.getEntry w e b index =
+      .ok (if h : index.toNat < vs.length then some (BitVec.ofNat 64 (vs[index.toNat] % 2 ^ (8 * w.bytes)))
+           else none) := by
+  have hl := content_length hI
+  rw [hc, Spec.encodeTable_length] at hl
+  have hsz := b.size.isLt
+  have hn := entriesNum_toNat w b
+  have hw : w.bytes = 4 ∨ w.bytes = 8 := by cases w <;> simp [Arr.W.bytes]
+  have hnum : (Arr.entriesNum w b).toNat = vs.length := by
+    rw [hn, ← hl]; rcases hw with h | h <;> rw [h] <;> omega
+  by_cases hk : index.toNat < vs.length
+  · rw [dif_pos hk]
+    have hoff : index.toNat * w.bytes + w.bytes ≤ b.content.length := by
+      rw [hc, Spec.encodeTable_length]
+      calc index.toNat * w.bytes + w.bytes = w.bytes * (index.toNat + 1) := by
+            rw [Nat.mul_add, Nat.mul_comm]; omega
+        _ ≤ w.bytes * vs.length := Nat.mul_le_mul_left _ hk
+    have hlt : index.toNat * w.bytes < 18446744073709551616 := by
+      have : b.content.length = b.size.toNat := content_length hI
+      simp only [Nat.reducePow] at hsz; omega
+    have hrd := getData_read hI "array/get_entry" (index.toNat * w.bytes) w.bytes hoff (by omega)
+    rw [hc, slice_encodeTable e w.bytes vs _ hk] at hrd
+    cases w
+    · simp only [Arr.W.bytes] at hrd hlt hnum ⊢
+      have hg : arr32_get_guard index (Arr.entriesNum .w4 b) = false := by
+        simp only [arr32_get_guard, BitVec.ule, hnum, decide_eq_false_iff_not]; omega
+      have ho : (arr32_get_off index).toNat = index.toNat * 4 := by
+        simp only [arr32_get_off, BitVec.toNat_mul, BitVec.toNat_ofNat, Nat.reducePow, Nat.reduceMod]
+        omega
+      simp only [Arr.getEntry, hg, Bool.false_eq_true, if_false, ho, hrd, bind, Except.bind, pure,
+        Except.pure]
+      congr 2
+      apply BitVec.eq_of_toNat_eq
+      have hc32 := cv32_toNat e (encodeInt e 4 vs[index.toNat]) (by simp)
+      rw [decode_encodeInt] at hc32
+      simp only [arr32_get_conv, BitVec.toNat_setWidth, hc32, BitVec.toNat_ofNat, Nat.reducePow]
+    · simp only [Arr.W.bytes] at hrd hlt hnum ⊢
+      have hg : arr64_get_guard index (Arr.entriesNum .w8 b) = false := by
+        simp only [arr64_get_guard, BitVec.ule, hnum, decide_eq_false_iff_not]; omega
+      have ho : (arr64_get_off index).toNat = index.toNat * 8 := by
+        simp only [arr64_get_off, BitVec.toNat_mul, BitVec.toNat_ofNat, Nat.reducePow, Nat.reduceMod]
+        omega
+      simp only [Arr.getEntry, hg, Bool.false_eq_true, if_false, ho, hrd, bind, Except.bind, pure,
+        Except.pure]
+      congr 2
+      apply BitVec.eq_of_toNat_eq
+      have hc64 := cv64_toNat e (encodeInt e 8 vs[index.toNat]) (by simp)
+      rw [decode_encodeInt] at hc64
+      simp only [arr64_get_conv, hc64, BitVec.toNat_ofNat, Nat.reducePow]
+      omega
+  · rw [dif_neg hk]
+    cases w
+    · have hg : arr32_get_guard index (Arr.entriesNum .w4 b) = true := by
+        simp only [arr32_get_guard, BitVec.ule, hnum, decide_eq_true_eq]; omega
+      simp [Arr.getEntry, hg, pure, Except.pure]
+    · have hg : arr64_get_guard index (Arr.entriesNum .w8 b) = true := by
+        simp only [arr64_get_guard, BitVec.ule, hnum, decide_eq_true_eq]; omega
+      simp [Arr.getEntry, hg, pure, Except.pure]
+
+/-- **array_roundtrip** : every address added to a freshly created array section is returned
+    unchanged (up to the entry width) by index, for both entry widths and all 4 configurations -/
+theorem array_roundtrip (w : Arr.W) (cls : Cls) (e : Enc) (ty : BitVec 32)
+    (hty : ty ≠ BitVec.ofNat 32 SHT_NOBITS) (as : List (BitVec 64))
+    (hb : Bound cls (w.bytes * as.length)) :
+    ∃ b', Arr.addAll w e (SecBuf.fresh cls ty) as = .ok b' ∧
+      ∀ (k : BitVec 64), Arr.getEntry w e b' k =
+        .ok (if h : k.toNat < as.length then some (BitVec.ofNat 64 (as[k.toNat].toNat % 2 ^ (8 * w.bytes)))
+             else none) := by
+  obtain ⟨hI, hc⟩ := fresh_inv cls ty hty
+  obtain ⟨b', e1, i1, _, v1⟩ := array_adds w e (SecBuf.fresh cls ty) hI as (by
+    rw [hc]; simpa [SecBuf.fresh] using hb)
+  refine ⟨b', e1, fun k => ?_⟩
+  rw [hc, List.nil_append] at v1
+  rw [array_get w e b' i1 _ v1 k]
+  simp
+
+/-- **array_bytes** : … and is stored in the file's declared byte order -/
+theorem array_bytes (w : Arr.W) (cls : Cls) (e : Enc) (ty : BitVec 32)
+    (hty : ty ≠ BitVec.ofNat 32 SHT_NOBITS) (as : List (BitVec 64))
+    (hb : Bound cls (w.bytes * as.length)) :
+    ∃ b', Arr.addAll w e (SecBuf.fresh cls ty) as = .ok b' ∧
+      b'.content = Spec.encodeTable e w.bytes (as.map (·.toNat)) := by
+  obtain ⟨hI, hc⟩ := fresh_inv cls ty hty
+  obtain ⟨b', e1, _, _, v1⟩ := array_adds w e (SecBuf.fresh cls ty) hI as (by
+    rw [hc]; simpa [SecBuf.fresh] using hb)
+  exact ⟨b', e1, by rw [v1, hc, List.nil_append]⟩
+
+/-- … after save and reload: a section loaded (eagerly or lazily) with the bytes of a table reads
+    back the same entries.  (That `save` writes the content and `load` reads it is correspondence.) -/
+theorem array_get_reloaded (w : Arr.W) (cls : Cls) (e : Enc) (ty : BitVec 32) (lazy : Bool) (ss : BitVec 64)
+    (hty : ty ≠ BitVec.ofNat 32 SHT_NOBITS) (hty0 : ty ≠ BitVec.ofNat 32 SHT_NULL) (vs : List Nat)
+    (hlen : w.bytes * vs.length < 18446744073709551616) (k : BitVec 64) :
+    Arr.getEntry w e
+      (if lazy then SecBuf.loadedLazy cls ty (Spec.encodeTable e w.bytes vs) ss
+       else SecBuf.loadedEager cls ty (Spec.encodeTable e w.bytes vs) ss) k =
+      .ok (if h : k.toNat < vs.length then some (BitVec.ofNat 64 (vs[k.toNat] % 2 ^ (8 * w.bytes))) else none) := by
+  cases lazy
+  · obtain ⟨hI, hc⟩ := loaded_inv cls ty (Spec.encodeTable e w.bytes vs) ss hty (by simpa using hlen)
+    exact array_get w e _ hI vs hc k
+  · obtain ⟨hI, hc⟩ := lazy_inv cls ty (Spec.encodeTable e w.bytes vs) ss hty hty0 (by simpa using hlen)
+    exact array_get w e _ hI vs hc k
+
+/-! ## symbol-version table (`.gnu.version`) -/
+
+/-- **add_entry** : appends the index in *host* byte order (the accessor has no convertor) and
+    counts it -/
+theorem versym_add (b : SecBuf) (hI : b.Inv) (num : BitVec 32) (v : BitVec 16)
+    (hb : Bound b.cls (b.content.length + 2)) :
+    ∃ b', Versym.addEntry b num v = .ok (b', num + 1) ∧ b'.Inv ∧ b'.cls = b.cls ∧
+      b'.content = b.content ++ encodeInt hostEnc 2 v.toNat := by
+  have h2 : vs_add_len.toNat = 2 := rfl
+  have hg : vs_add_guard true = false := rfl
+  obtain ⟨b', h1, r, c, w⟩ := append_refines b hI (encodeInt hostEnc 2 v.toNat) (by simpa using hb)
+  refine ⟨b', ?_, Or.inl r, c, w⟩
+  simp only [Versym.addEntry, hg, Bool.false_eq_true, if_false, h2, hostEncode_eq, h1, bind, Except.bind,
+    pure, Except.pure]
+
+theorem versym_adds (b : SecBuf) (hI : b.Inv) (num : BitVec 32) (vs : List (BitVec 16))
+    (hb : Bound b.cls (b.content.length + 2 * vs.length)) :
+    ∃ b', Versym.addAll b num vs = .ok (b', num + BitVec.ofNat 32 vs.length) ∧ b'.Inv ∧ b'.cls = b.cls ∧
+      b'.content = b.content ++ Spec.encodeTable hostEnc 2 (vs.map (·.toNat)) := by
+  induction vs generalizing b num with
+  | nil => exact ⟨b, by simp [Versym.addAll, pure, Except.pure], hI, rfl, by simp [Spec.encodeTable]⟩
+  | cons v vs ih =>
+    simp only [List.length_cons, Nat.mul_add, Nat.mul_one] at hb
+    obtain ⟨b1, e1, i1, c1, v1⟩ := versym_add b hI num v (bound_mono hb (by omega))
+    obtain ⟨b2, e2, i2, c2, v2⟩ := ih b1 i1 (num + 1) (by
+      rw [c1, v1]; simp only [List.length_append, encodeInt_length]; exact bound_mono hb (by omega))
+    refine ⟨b2, ?_, i2, by rw [c2, c1], ?_⟩
+    · simp only [Versym.addAll, e1, bind, Except.bind]
+      rw [e2]
+      congr 2
+      apply BitVec.eq_of_toNat_eq
+      have h1 : (1 : BitVec 32).toNat = 1 := rfl
+      simp only [BitVec.toNat_add, BitVec.toNat_ofNat, List.length_cons, Nat.reducePow, h1]
+      omega
+    · rw [v2, v1]; simp [Spec.encodeTable]
+
+/-- **get_entry** : on every reachable section whose content is a table of host-order Halfs and
+    whose accessor counts them, `get_entry(k)` is the `k`-th entry; `false` beyond the end -/
+theorem versym_get (b : SecBuf) (hI : b.Inv) (num : BitVec 32) (vs : List Nat)
+    (hc : b.content = Spec.encodeTable hostEnc 2 vs) (hnum : num.toNat = vs.length) (no : BitVec 32) :
+    Versym.getEntry b num no =
+      .ok (if h : no.toNat < vs.length then some (BitVec.ofNat 16 (vs[no.toNat] % 65536)) else none) := by
+  have hn := no.isLt
+  simp only [Nat.reducePow] at hn
+  by_cases hk : no.toNat < vs.length
+  · rw [dif_pos hk]
+    have hg : vs_get_guard true no (Versym.entriesNum num) = true := by
+      simp only [vs_get_guard, Versym.entriesNum, vs_num_guard, if_true, Bool.true_and, BitVec.ult, hnum,
+        decide_eq_true_eq]
+      exact hk
+    have ho : (vs_get_off no).toNat = no.toNat * 2 := by
+      simp only [vs_get_off, BitVec.toNat_mul, BitVec.toNat_setWidth, BitVec.toNat_ofNat, Nat.reducePow,
+        Nat.reduceMod]
+      omega
+    have hoff : no.toNat * 2 + 2 ≤ b.content.length := by
+      rw [hc, Spec.encodeTable_length]; omega
+    have hrd := getData_read hI "versym/get_entry" (no.toNat * 2) 2 hoff (by omega)
+    rw [hc, slice_encodeTable hostEnc 2 vs _ hk] at hrd
+    simp only [Versym.getEntry, hg, if_true, ho, hrd, bind, Except.bind, pure, Except.pure,
+      hostDecode_eq, decode_encodeInt]
+  · rw [dif_neg hk]
+    have hg : vs_get_guard true no (Versym.entriesNum num) = false := by
+      simp only [vs_get_guard, Versym.entriesNum, vs_num_guard, if_true, Bool.true_and, BitVec.ult, hnum,
+        decide_eq_false_iff_not]
+      exact hk
+    simp [Versym.getEntry, hg, pure, Except.pure]
+
+/-- **versym_roundtrip** (library-symmetric; holds in all 4 configurations — the declared byte
+    order does not even occur): every version index added through an accessor on a fresh section is
+    returned unchanged by index -/
+theorem versym_roundtrip (cls : Cls) (ty : BitVec 32) (hty : ty ≠ BitVec.ofNat 32 SHT_NOBITS)
+    (vs : List (BitVec 16)) (hb : Bound cls (2 * vs.length)) (h32 : vs.length < 4294967296) :
+    ∃ b' n', Versym.addAll (SecBuf.fresh cls ty) (Versym.mk (SecBuf.fresh cls ty)) vs = .ok (b', n') ∧
+      ∀ (k : BitVec 32), Versym.getEntry b' n' k =
+        .ok (if h : k.toNat < vs.length then some vs[k.toNat] else none) := by
+  obtain ⟨hI, hc⟩ := fresh_inv cls ty hty
+  have hmk : Versym.mk (SecBuf.fresh cls ty) = 0 := by
+    simp [Versym.mk, vs_ctor_guard, vs_count, SecBuf.fresh]
+  obtain ⟨b', e1, i1, _, v1⟩ := versym_adds (SecBuf.fresh cls ty) hI 0 vs (by
+    rw [hc]; simpa [SecBuf.fresh] using hb)
+  refine ⟨b', _, by rw [hmk]; exact e1, fun k => ?_⟩
+  rw [hc, List.nil_append] at v1
+  rw [versym_get b' i1 _ _ v1 (by
+    simp only [BitVec.toNat_add, BitVec.toNat_ofNat, List.length_map, Nat.reducePow]; simp; omega) k]
+  simp only [List.length_map, List.getElem_map]
+  split
+  · congr 2
+    apply BitVec.eq_of_toNat_eq
+    have := (vs[k.toNat]).isLt
+    simp only [BitVec.toNat_ofNat, Nat.reducePow] at *
+    omega
+  · rfl
+
+/-- … also for a section that was loaded (eagerly or lazily) with a table of host-order Halfs -/
+theorem versym_get_reloaded (cls : Cls) (ty : BitVec 32) (lazy : Bool) (ss : BitVec 64)
+    (hty : ty ≠ BitVec.ofNat 32 SHT_NOBITS) (hty0 : ty ≠ BitVec.ofNat 32 SHT_NULL) (vs : List Nat)
+    (hlen : vs.length < 4294967296) (k : BitVec 32) :
+    let b := if lazy then SecBuf.loadedLazy cls ty (Spec.encodeTable hostEnc 2 vs) ss
+             else SecBuf.loadedEager cls ty (Spec.encodeTable hostEnc 2 vs) ss
+    Versym.getEntry b (Versym.mk b) k =
+      .ok (if h : k.toNat < vs.length then some (BitVec.ofNat 16 (vs[k.toNat] % 65536)) else none) := by
+  have hl : (Spec.encodeTable hostEnc 2 vs).length = 2 * vs.length := Spec.encodeTable_length _ _ _
+  have hmk : ∀ b : SecBuf, b.size = BitVec.ofNat 64 (2 * vs.length) → (Versym.mk b).toNat = vs.length := by
+    intro b hs
+    simp only [Versym.mk, vs_ctor_guard, if_true, vs_count, hs, BitVec.toNat_setWidth, BitVec.toNat_udiv,
+      BitVec.toNat_ofNat, Nat.reducePow, Nat.reduceMod]
+    omega
+  cases lazy
+  · obtain ⟨hI, hc⟩ := loaded_inv cls ty (Spec.encodeTable hostEnc 2 vs) ss hty (by rw [hl]; omega)
+    exact versym_get _ hI _ vs hc (hmk _ (by simp [SecBuf.loadedEager, hl])) k
+  · obtain ⟨hI, hc⟩ := lazy_inv cls ty (Spec.encodeTable hostEnc 2 vs) ss hty hty0 (by rw [hl]; omega)
+    exact versym_get _ hI _ vs hc (hmk _ (by simp [SecBuf.loadedLazy, hl])) k
+
+/-- The full statement the property asks for — *false on the tree* (F4):
+    the table is stored in the file's declared byte order. -/
+def VersymBytesDeclaredOrder : Prop :=
+  ∀ (cls : Cls) (e : Enc) (ty : BitVec 32) (vs : List (BitVec 16)) b' n',
+    Versym.addAll (SecBuf.fresh cls ty) 0 vs = .ok (b', n') →
+    b'.content = Spec.encodeTable e 2 (vs.map (·.toNat))
+
+/-- **versym_bytes_partial** : the stored bytes are in the declared byte order *when the declared
+    order is the host's* (no conversion needed) — exactly the complement of F4's trigger -/
+theorem versym_bytes_partial (cls : Cls) (e : Enc) (he : needConv e = false) (ty : BitVec 32)
+    (hty : ty ≠ BitVec.ofNat 32 SHT_NOBITS) (vs : List (BitVec 16)) (hb : Bound cls (2 * vs.length)) :
+    ∃ b' n', Versym.addAll (SecBuf.fresh cls ty) 0 vs = .ok (b', n') ∧
+      b'.content = Spec.encodeTable e 2 (vs.map (·.toNat)) := by
+  obtain ⟨hI, hc⟩ := fresh_inv cls ty hty
+  obtain ⟨b', e1, _, _, v1⟩ := versym_adds (SecBuf.fresh cls ty) hI 0 vs (by
+    rw [hc]; simpa [SecBuf.fresh] using hb)
+  rw [(needConv_false_iff e).1 he]
+  exact ⟨b', _, e1, by rw [v1, hc, List.nil_append]⟩
+
+/-- **versym_order_witness** (F4, write side): in an ELFCLASS32/ELFDATA2MSB file on this host,
+    `add_entry(0x0102)` on a fresh `.gnu.version` section stores `02 01`; the declared byte order
+    demands `01 02`.  Hence `VersymBytesDeclaredOrder` is false. -/
+theorem versym_order_witness :
+    ∃ b', Versym.addEntry (SecBuf.fresh .c32 (BitVec.ofNat 32 SHT_GNU_versym)) 0 0x0102#16 = .ok (b', 1) ∧
+      b'.content = [2, 1] ∧ Spec.encodeTable .msb 2 [0x0102] = [1, 2] := by
+  obtain ⟨hI, hc⟩ := fresh_inv .c32 (BitVec.ofNat 32 SHT_GNU_versym) (by decide)
+  obtain ⟨b', e1, _, _, v1⟩ := versym_add _ hI 0 0x0102#16 (by rw [hc]; simp [Bound, SecBuf.fresh])
+  refine ⟨b', e1, ?_, by decide⟩
+  rw [v1, hc]; decide
+
+theorem versym_bytes_declared_order_false : ¬ VersymBytesDeclaredOrder := by
+  intro h
+  obtain ⟨b', e1, c1, c2⟩ := versym_order_witness
+  have := h .c32 .msb (BitVec.ofNat 32 SHT_GNU_versym) [0x0102#16] b' 1 (by
+    simp only [Versym.addAll, e1, bind, Except.bind, pure, Except.pure])
+  rw [c1] at this
+  revert this; decide
+
+/-- **versym_read_witness** (F4, read side): the well-formed big-endian table `00 05` (one entry,
+    value 5 — e.g. entry 12 of `.gnu.version` of tests/elf_examples/test_ppc) is reported as 0x0500. -/
+theorem versym_read_witness :
+    let b := SecBuf.loadedEager .c32 (BitVec.ofNat 32 SHT_GNU_versym) [0, 5] 4096
+    Spec.tableEntry .msb 2 [0, 5] 0 = some 5 ∧
+    Versym.getEntry b (Versym.mk b) 0 = .ok (some 0x0500#16) := by
+  refine ⟨by decide, ?_⟩
+  obtain ⟨hI, hc⟩ := loaded_inv .c32 (BitVec.ofNat 32 SHT_GNU_versym) [0, 5] 4096 (by decide) (by decide)
+  have := versym_get _ hI (Versym.mk (SecBuf.loadedEager .c32 (BitVec.ofNat 32 SHT_GNU_versym) [0, 5] 4096))
+    [0x0500] (by rw [hc]; decide) (by decide) 0
+  rw [this]; rfl
+
+example : needConv .lsb = false := rfl
+example : Bound .c64 (2 * [1#16, 2#16].length) := by simp [Bound]
+
+/-! non-vacuity -/
+example : Bound .c32 (Arr.W.w8.bytes * [1#64, 2#64, 0xffffffffffffffff#64].length) := by
+  simp [Bound, Arr.W.bytes]
+example : (SecBuf.fresh .c32 14).Inv := (fresh_inv .c32 14 (by decide)).1
+
+end C14
+end ElfioVerif
